@@ -70,6 +70,7 @@ Allowed ==
                     IF Cur.hasgid THEN Cur.gid ELSE (IF P \in DOMAIN PreT THEN PreT[Resolve(PreT, P)].gid ELSE 0), MaxFS)
     [] Cur.proc = "WRITE" ->
          IF Cur.offc = "small" THEN WriteOut(PreT, P, Cur.off, Cur.data, R.count, MaxFS, T)
+         ELSE IF MaxFS > 0 THEN Fail(PreT)      \* far beyond any MaxFileSize
          ELSE \* offsets near 2^63 and above: need not succeed; a failure changes nothing; a success
               \* leaves the existing bytes where they were (the file becomes huge)
               Fail(PreT) \cup (IF Kind(PreT, P) = "F" /\ Kind(PostT, P) = "F" /\ PostT[P].szbig
@@ -136,8 +137,12 @@ StatusBad ==
   THEN {[prop |-> "C03", why |-> "GUARDED/EXCLUSIVE CREATE of an existing name must fail with NFS3ERR_EXIST"]}
   ELSE IF MaxFS > 0 /\ Cur.st # "FBIG" /\
           ((Cur.proc = "WRITE" /\ Cur.offc = "small" /\ Kind(PreT, P) = "F" /\ Cur.off + Len(Cur.data) > MaxFS)
+           \/ (Cur.proc = "WRITE" /\ Cur.offc = "m63" /\ Kind(PreT, P) = "F")      \* a valid offset just below 2^63
            \/ (Cur.proc = "SETATTR" /\ Cur.hassize /\ Kind(PreT, P) = "F" /\ Cur.size > MaxFS))
   THEN {[prop |-> "C25", why |-> "request exceeding MaxFileSize must fail with NFS3ERR_FBIG"]}
+  ELSE IF MaxFS > 0 /\ Cur.mut > 0 /\ Cur.proc = "WRITE" /\ Kind(PreT, P) = "F" /\
+          ((Cur.offc = "small" /\ Cur.off + Len(Cur.data) > MaxFS) \/ Cur.offc # "small")
+  THEN {[prop |-> "C25", why |-> "a WRITE beyond MaxFileSize reached the backend with a modifying operation"]}
   ELSE {}
 
 OutcomeBad ==
